@@ -91,6 +91,7 @@ class FakeClient:
 
     def __init__(self, broker: FakeBroker, *args, **kwargs) -> None:
         self.broker = broker
+        broker.filters = []  # clean_session=True: a new client session starts without subscriptions
         self.args, self.kwargs = args, kwargs
         self._loop = asyncio.get_event_loop()
         self._queue: asyncio.Queue = asyncio.Queue()
@@ -182,6 +183,7 @@ def _ops():
         (1, st.just(["publish_fault"])),
         (1, st.just(["broker_error"])),
         (1, st.just(["disconnect"])),
+        (2, st.just(["reconnect"])),
     )
     return st.lists(op, min_size=0, max_size=14)
 
@@ -200,6 +202,10 @@ def strategy(tier: str):
 def enumerate_cases(tier: str):
     yield {"in_prefix": "mygateway1-out", "out_prefix": "mygateway1-in", "connect_fault": "none", "ops": []}
     yield {"in_prefix": "a/b/c", "out_prefix": "d/e", "connect_fault": "none", "ops": [["disconnect"]]}
+    for prefix in ("gw1/out", "home/gw1", "site2/floor/mys-out", "1/2/3", "out", "255"):
+        for node in (1, 12, 21, 254, 255):
+            yield {"in_prefix": prefix, "out_prefix": prefix + "x", "connect_fault": "none",
+                   "ops": [["deliver", [node, 1, 1, 0, 2, "1"]], ["read"], ["reconnect"], ["deliver", [node, 255, 3, 1, 0, "7"]], ["echo", [node, 2, 1, 1, 47, "a;b/c"]], ["reconnect"], ["deliver", [node, 255, 4, 0, 1, ""]]]}
     for fault in ("connect", "subscribe"):
         yield {"in_prefix": "in", "out_prefix": "out", "connect_fault": fault, "ops": []}
     for cmd, child in ((0, 1), (1, 1), (2, 1), (3, 255), (4, 255)):
@@ -349,6 +355,18 @@ def run_case(case: dict) -> Outcome:
                     bad = await do_read(where)
                     if bad is not None:
                         return bad
+            elif kind == "reconnect":
+                # same transport object, new session: everything still owed is read first, then disconnect + connect
+                while expected:
+                    bad = await do_read(where)
+                    if bad is not None:
+                        return bad
+                try:
+                    await transport.disconnect()
+                    await transport.connect()
+                except Exception as err:  # noqa: BLE001
+                    return fail(f"reconnect-raises:{type(err).__name__}", f"{where}: disconnect+connect on the same transport raised {err!r}")
+                dead = False
             elif kind == "disconnect":
                 connected = False
                 break
